@@ -9,7 +9,7 @@ import numpy as np
 from harness import store_fixtures as sf
 
 UNIVERSE = ['ra', 'dec', 'time', 'run', 'azi', 'zen', 'uid', 'user', 'log_energy', 'ang_err', 'mcweight',
-            'true_ra', 'pre', 'stat']
+            'true_ra', 'pre', 'stat', 'atmo', 'astro']
 IDX = {n: i for i, n in enumerate(UNIVERSE)}
 TWO_PI = 2 * np.pi
 
@@ -116,7 +116,7 @@ class World:
 
     def __init__(self, spec):
         from skyllh.core.analysis import LLHRatioAnalysis
-        from skyllh.core.background_generation import MCDataSamplingBkgGenMethod
+        from skyllh.core.background_generation import CompositeMCDataSamplingBkgGenMethod, MCDataSamplingBkgGenMethod
         from skyllh.core.background_generator import DatasetBackgroundGenerator, MultiDatasetBackgroundGenerator
         from skyllh.core.config import Config
         from skyllh.core.dataset import Dataset, DatasetData
@@ -191,13 +191,36 @@ class World:
                 return (sel, [np.zeros(len(idx), dtype=np.int64), np.arange(len(idx))])
         self.PreSel = PreSel
         mcv = spec['mc_variant']
+        keep = list(mcv.get('keep', ['mcweight']))
+
+        def prob(dataset, data, events):
+            # uses the MC weight when the user kept it, the component rates when they are there, else uniform
+            w_ = np.ones(len(events), dtype=np.float64)
+            if 'mcweight' in events:
+                w_ = w_ * events['mcweight']
+            if 'atmo' in events:
+                w_ = w_ * (events['atmo'] + events['astro'])
+            return w_ / np.sum(w_)
+
+        def mean(dataset, data, events):
+            return float(len(events)) / 2.0
         self.mc_method = MCDataSamplingBkgGenMethod(
-            get_event_prob_func=lambda dataset, data, events: events['mcweight'] / np.sum(events['mcweight']),
-            get_mean_func=lambda dataset, data, events: float(len(events)) / 2.0,
+            get_event_prob_func=prob, get_mean_func=mean,
             data_scrambler=None if mcv['scr'] is None else DataScrambler(self.scr[mcv['scr']]()),
-            keep_mc_data_fields=['mcweight'],
+            keep_mc_data_fields=keep,
             pre_event_selection_method=PreSel() if mcv['presel'] else None,
             cfg=self.cfg)
+        # background components of the composite method: rate of each MC event (simple callables)
+        self.comp_rates = {'atmo': lambda dataset, data, events: np.full(len(events), 0.5),
+                           'astro': lambda dataset, data, events: np.full(len(events), 0.25)}
+        self.comp_method = CompositeMCDataSamplingBkgGenMethod(
+            bkg_component_rate_calc_func_dict=dict(self.comp_rates),
+            get_event_prob_func=prob, get_mean_func=mean,
+            data_scrambler=None if mcv['scr'] is None else DataScrambler(self.scr[mcv['scr']]()),
+            keep_mc_data_fields=keep,
+            pre_event_selection_method=PreSel() if mcv['presel'] else None,
+            cfg=self.cfg)
+        self.DataScrambler = DataScrambler
         self.DBG, self.MBG = DatasetBackgroundGenerator, MultiDatasetBackgroundGenerator
         self.RSS = RandomStateService
 
@@ -264,9 +287,17 @@ class World:
             list(self.data.exp_field_names)
 
 
+def gen_keep(rng):
+    """keep_mc_data_fields: none, partial, all MC-only fields, overlapping the experimental fields"""
+    return rng.choice([[], ['mcweight'], ['mcweight'], ['true_ra'], ['mcweight', 'true_ra'], ['mcweight', 'true_ra'],
+                       ['mcweight', 'dec'], ['dec', 'ra'], ['uid'], ['mcweight', 'true_ra', 'dec', 'uid', 'run'],
+                       ['time', 'mcweight', 'true_ra']])
+
+
 def gen_spec(rng):
     return {'data_seed': rng.randrange(10**6), 'n_exp': rng.choice([1, 2, 3, 5, 8, 13]), 'n_mc': rng.choice([2, 4, 9, 20]),
             'narrow': rng.random() < 0.6, 'extra': True, 'ra_range': gen_ra_range(rng),
-            'mc_variant': {'scr': rng.choice([None, 'uniform', 'i3time', 'uniform_range']), 'presel': rng.random() < 0.4},
+            'mc_variant': {'scr': rng.choice([None, 'uniform', 'i3time', 'uniform_range', 'seasonal']), 'presel': rng.random() < 0.4,
+                           'keep': gen_keep(rng)},
             'trial': {'index': rng.choice([None, 'run', 'run', 'time']), 'pre': rng.random() < 0.5,
                       'stat': rng.random() < 0.7, 'sel': rng.random() < 0.4}}
